@@ -542,12 +542,39 @@ pub fn run_batch<S: Sim>(sim: &S, opts: &Opts) -> BatchReport {
     det_mismatch.sort();
 
     let mut exit_code = 0;
+    let mut state_leak_note: Option<String> = None;
     if !det_mismatch.is_empty() {
-        eprintln!(
-            "HARNESS-ERROR: determinism re-check mismatch on run indices {:?}",
-            &det_mismatch[..det_mismatch.len().min(5)]
-        );
-        exit_code = 2;
+        // Is the simulator nondeterministic, or does the code under test keep state across the runs
+        // of one process (a process-wide static)? Execute a few of those scenarios in fresh
+        // processes, twice each: if each is deterministic on its own, it is the latter.
+        let _ = std::fs::create_dir_all(format!("{}/replays", opts.verif_dir));
+        let mut alone_deterministic = true;
+        for i in det_mismatch.iter().take(3) {
+            let mut rng = Rng::new(mix(opts.seed, *i));
+            let sc = sim.plan(&mut rng, sim.sub_batch_of(*i));
+            let path = format!("{}/replays/.recheck-{}-{}-{}.json", opts.verif_dir, sim.property(), opts.seed, i);
+            let a = fresh_exec(sim, &sc, &path, &opts.verif_dir);
+            let b = fresh_exec(sim, &sc, &path, &opts.verif_dir);
+            let _ = std::fs::remove_file(&path);
+            match (a, b) {
+                (Some(a), Some(b)) if a.log_hash == b.log_hash && a.violation == b.violation => {}
+                _ => alone_deterministic = false,
+            }
+        }
+        if alone_deterministic {
+            let note = format!(
+                "re-executing runs {:?} inside the batch gave a different event log although each is deterministic in a fresh process: the code under test keeps state across the runs of one process",
+                &det_mismatch[..det_mismatch.len().min(5)]
+            );
+            println!("NOTE: {note}");
+            state_leak_note = Some(note);
+        } else {
+            eprintln!(
+                "HARNESS-ERROR: determinism re-check mismatch on run indices {:?}",
+                &det_mismatch[..det_mismatch.len().min(5)]
+            );
+            exit_code = 2;
+        }
     }
 
     // Known findings: one line each
@@ -585,18 +612,32 @@ pub fn run_batch<S: Sim>(sim: &S, opts: &Opts) -> BatchReport {
             known: &known_keys,
             keep_log: true,
         };
-        let r1 = execute_caught(sim, &min_sc, &ctx_log);
-        let r2 = execute_caught(sim, &min_sc, &ctx_log);
-        let (Some(v1), Some(v2)) = (&r1.violation, &r2.violation) else {
-            eprintln!("HARNESS-ERROR: minimised scenario of run {i} does not reproduce");
-            exit_code = 2;
-            continue;
+        let _ = &ctx_log;
+        // What gets reported is what a fresh process reproduces (that is what `--replay` runs):
+        // the minimised scenario, executed twice in fresh processes, must give the same violation of
+        // the same rule and the same event log. If it does not (the in-batch violation leaned on
+        // state the code under test keeps across runs), fall back to the unminimised scenario.
+        let cand = format!("{}/replays/.cand-{}-{}-{}.json", opts.verif_dir, sim.property(), opts.seed, i);
+        let fresh_pair = |sc: &S::Scenario| -> Option<FreshResult> {
+            let a = fresh_exec(sim, sc, &cand, &opts.verif_dir)?;
+            let b = fresh_exec(sim, sc, &cand, &opts.verif_dir)?;
+            (a.violation.is_some() && a.violation == b.violation && a.log_hash == b.log_hash).then_some(a)
         };
-        if v1 != v2 || r1.log_hash != r2.log_hash {
-            eprintln!("HARNESS-ERROR: minimised scenario of run {i} is not deterministic");
-            exit_code = 2;
-            continue;
-        }
+        let (min_sc, r1, minimised) = match fresh_pair(&min_sc).filter(|r| r.violation.as_ref().is_some_and(|x| x.rule == v.rule)) {
+            Some(r) => (min_sc, r, true),
+            None => match fresh_pair(sc) {
+                Some(r) => (sc.clone(), r, false),
+                None => {
+                    let _ = std::fs::remove_file(&cand);
+                    eprintln!("HARNESS-ERROR: violation of run {i} (rule {}) is not reproducible in a fresh process", v.rule);
+                    exit_code = 2;
+                    continue;
+                }
+            },
+        };
+        let _ = std::fs::remove_file(&cand);
+        let v1 = r1.violation.clone().expect("checked");
+        let v1 = &v1;
         let path = format!(
             "{}/replays/{}-{}-{}.json",
             opts.verif_dir,
@@ -614,6 +655,7 @@ pub fn run_batch<S: Sim>(sim: &S, opts: &Opts) -> BatchReport {
             "violation": v1,
             "original_violation": v,
             "shrink_executions": used,
+            "minimised": minimised,
             "log_hash": r1.log_hash,
             "scenario": min_sc,
             "log": r1.log,
@@ -685,7 +727,7 @@ pub fn run_batch<S: Sim>(sim: &S, opts: &Opts) -> BatchReport {
                 "distinct_signatures": signatures.len(),
                 "distinct_signature_measure": "FNV hash of each run's ordering skeleton: sequence of (actor, message kind, fault tag), values and timestamps stripped",
                 "components": {"real": sim.components_real(), "stub": sim.components_stub()},
-                "determinism_recheck": {"runs": det_runs, "mismatches": det_mismatch.len()},
+                "determinism_recheck": {"runs": det_runs, "mismatches": det_mismatch.len(), "note": state_leak_note},
                 "batch_event_log_digest": format!("{batch_hash:016x}"),
                 "known_findings_seen": stats.known,
                 "replay_files": replay_files,
@@ -899,4 +941,45 @@ impl<A: Sim, B: Sim> Sim for Plus<A, B> {
     fn default_runs(&self) -> (u64, u64) {
         self.a.default_runs()
     }
+}
+
+
+// ------------------------------------------------------------------------------------------------
+// Fresh-process execution (what `--replay` will do): immune to state the code under test may keep
+// across the runs of one process
+// ------------------------------------------------------------------------------------------------
+
+#[derive(Clone, Debug, serde::Deserialize, Serialize)]
+pub struct FreshResult {
+    pub violation: Option<Violation>,
+    pub log_hash: u64,
+    pub log: Vec<String>,
+}
+
+/// Child side: `simcheck fresh <file>` prints one JSON line with the outcome of the scenario.
+pub fn fresh_child<S: Sim>(sim: &S, file: &Value, verif_dir: &str) -> i32 {
+    let known = load_known_findings(verif_dir).unwrap_or_default();
+    let known_keys: HashSet<String> = known.iter().filter(|k| k.property == sim.property()).map(|k| k.key.clone()).collect();
+    let sc: S::Scenario = match serde_json::from_value(file["scenario"].clone()) {
+        Ok(s) => s,
+        Err(e) => {
+            eprintln!("HARNESS-ERROR: scenario does not parse: {e}");
+            return 2;
+        }
+    };
+    let ctx = ExecCtx { known: &known_keys, keep_log: true };
+    let out = execute_caught(sim, &sc, &ctx);
+    let r = FreshResult { violation: out.violation, log_hash: out.log_hash, log: out.log };
+    println!("FRESH {}", serde_json::to_string(&r).unwrap());
+    0
+}
+
+fn fresh_exec<S: Sim>(sim: &S, sc: &S::Scenario, path: &str, verif_dir: &str) -> Option<FreshResult> {
+    let file = json!({"property": sim.property(), "scenario": sc});
+    std::fs::write(path, serde_json::to_string(&file).ok()?).ok()?;
+    let exe = std::env::current_exe().ok()?;
+    let out = std::process::Command::new(exe).args(["fresh", path, "--verif-dir", verif_dir]).output().ok()?;
+    let text = String::from_utf8_lossy(&out.stdout);
+    let line = text.lines().find_map(|l| l.strip_prefix("FRESH "))?;
+    serde_json::from_str(line).ok()
 }
